@@ -770,7 +770,7 @@ def history(ctx, entry="interdiff", ne=1, seq=((0.10, 900.0), (0.20, 1000.0)), k
         ctx.prove("repeating the call gives the same answer", _same(ctx, np.asarray(r_hist), np.asarray(r_again)))
 
 
-def sampling_history(ctx, npts=2, keep=True, same=False, ordered=False):
+def sampling_history(ctx, npts=2, keep=True, same=False, ordered=False, conds=False):
     """sampling driving force through the real getDrivingForce -> _getDrivingForceSampling ->
     _getPrecCompositionSetSamplingDF (pycalphad's calculate / CompositionSet and the matrix local equilibrium stubbed):
     two successive queries on one object at symbolic temperatures T1 != T2 (arbitrarily close); the second answer equals a
@@ -795,6 +795,8 @@ def sampling_history(ctx, npts=2, keep=True, same=False, ordered=False):
     def calculate(db, elements, phase, pdens=None, model=None, output=None, phase_records=None, conditions=None, to_xarray=True, **cond):
         T = cond["T"]
         log.append((phase, output, T))
+        if conds:       # sampling restricted by the caller's local_phase_sampling_conditions: the samples depend on them
+            T = T + 0.0 * T + conditions["restrict"] * 1000.0
         pts = type("Points", (), {})()
         pts.X = np.array([[Xs[j] for j in range(npts)]])
         pts.Y = np.array([[Xs[j] for j in range(npts)]])
@@ -823,12 +825,17 @@ def sampling_history(ctx, npts=2, keep=True, same=False, ordered=False):
         return th
     with patched(_TH, "calculate", calculate), patched(_TH, "CompositionSet", SamplingCS):
         warm = mk()
-        d1, c1 = warm.getDrivingForce(x, T1, precPhase="P1", removeCache=not keep)
+        lp1 = lp2 = None
+        if conds:
+            r1 = ctx.real("restrict1", (0.1, 0.4)); r2 = ctx.real("restrict2", (0.5, 0.9))
+            ctx.assume(r1 != r2, "the two queries restrict the precipitate sampling differently")
+            lp1 = {"restrict": r1}; lp2 = {"restrict": r2}
+        d1, c1 = warm.getDrivingForce(x, T1, precPhase="P1", removeCache=not keep, local_phase_sampling_conditions=lp1)
         n1 = len(log)
-        d2, c2 = warm.getDrivingForce(x, T2, precPhase="P1", removeCache=not keep)
+        d2, c2 = warm.getDrivingForce(x, T2, precPhase="P1", removeCache=not keep, local_phase_sampling_conditions=lp2)
         n2 = len(log)
         fresh = mk()
-        df, cf = fresh.getDrivingForce(x, T2, precPhase="P1", removeCache=False)
+        df, cf = fresh.getDrivingForce(x, T2, precPhase="P1", removeCache=False, local_phase_sampling_conditions=lp2)
         ctx.observe("dg_hist", d2 * 1.0); ctx.observe("dg_fresh", df * 1.0)
         ctx.prove("sampling driving force after a query at another temperature equals a fresh object's answer",
                   ctx.all([ctx.eq(d2 * 1.0, df * 1.0), ctx.eq(c2 * 1.0, cf * 1.0)]))
@@ -844,10 +851,208 @@ def sampling_history(ctx, npts=2, keep=True, same=False, ordered=False):
             ctx.prove("removeCache: no samples kept", warm._points_cache["P1"] == SampledPointsCache())
         # the composition set handed back by the real _getPrecCompositionSetSamplingDF (one more direct call on the warm object)
         mu = fresh.getLocalEq(x, T2)[0].chemical_potentials
-        dgd, cs = warm._getPrecCompositionSetSamplingDF(x, T2, mu, "P1")
+        dgd, cs = warm._getPrecCompositionSetSamplingDF(x, T2, mu, "P1", lp2)
         ctx.prove("direct call agrees with the fresh object's answer", ctx.eq(dgd * 1.0, df * 1.0))
         ctx.prove("precipitate composition set carries the state variables of the query (GE offset, N, P, T)",
                   ctx.all([ctx.eq(cs.dof[0], 1.0), ctx.eq(cs.dof[1], 1.0), ctx.eq(cs.dof[2], 101325.0), ctx.eq(cs.dof[3], T2)]))
+
+
+def _mk_multi(ctx, ne=2):
+    """real MulticomponentThermodynamics object without a database (attributes as __init__ leaves them)"""
+    th = object.__new__(MulticomponentThermodynamics)
+    th.phases = ["ALPHA", "P1"]; th.elements = ["A", "B", "C", "D"][:ne + 1] + ["VA"]; th.numElements = ne + 1
+    th.mobCallables = {"ALPHA": {"mob": "ALPHA"}, "P1": None}; th.diffCallables = {"ALPHA": None, "P1": None}
+    th.mobility_correction = {}; th.vacancyPoorInterstitialSublattice = {}; th._parameters = {}
+    th.clearCache()
+    th._curvature_outputs = {p: CurvatureOutput() for p in th.phases[1:]}
+    return th
+
+
+def _curv_same(ctx, a, b):
+    if a is None or b is None:
+        return a is None and b is None
+    return ctx.all([_same(ctx, np.asarray(u) if u is not None else 0.0, np.asarray(w) if w is not None else 0.0) if (u is None) == (w is None) else False
+                    for u, w in zip(tuple(a), tuple(b))])
+
+
+@contextlib.contextmanager
+def _curv_backend(ctx, ne, region):
+    """pycalphad side of curvatureFactor: the composition-set search answers per query according to `region`
+    ('two': matrix + precipitate found, 'matrix': only the matrix stable, 'invalid': no converged equilibrium); mobility /
+    curvature evaluations are uninterpreted functions of the composition sets they are handed"""
+    _MT = sys.modules["kawin.thermo.MultiTherm"]
+    names = ["A", "B", "C", "D"][:ne + 1]
+
+    def cs_for(phase, xs, T):
+        X = [ctx.uf("X_%s_%s" % (phase, n_), *xs, T, rng=((0.05, 0.2) if phase == "ALPHA" else (0.25, 0.4))) for n_ in names]
+        for q in X:
+            ctx.assume(q > 0, "backend contract: mole fractions positive")
+        if phase != "ALPHA":
+            ctx.assume(X[1] > ctx.uf("X_ALPHA_%s" % names[1], *xs, T, rng=(0.05, 0.2)), "backend contract: the precipitate is richer in the first solute than the matrix")
+        c = _CS(phase, X)
+        c.phase_record.nonvacant_elements = names
+        c.key = (phase, xs, T)
+        return c
+
+    def getCS(th):
+        def _getCompositionSetsEq(x, T, precPhase, cached_composition_sets={}):
+            xs = list(np.atleast_1d(x))
+            r = region[len(th._queries)]
+            th._queries.append((xs, T))
+            if r == "invalid":
+                return None
+            mu = np.array([ctx.uf("MUeq%d" % c, *xs, T, rng=(-3.0, -1.0)) for c in range(ne + 1)])
+            return mu, cs_for("ALPHA", xs, T), (cs_for(precPhase, xs, T) if r == "two" else None)
+        return _getCompositionSetsEq
+
+    def inverseMobility(mu, cs, refEl, mobCallables, mobility_correction=None, vacancy_poor_interstitial_sublattice=False, parameters=None):
+        ph, xs, T = cs.key
+        u = lambda nm, rng: ctx.uf("%s_%s" % (nm, ph), *xs, T, rng=rng)
+        # diffusivity and inverse-mobility matrices: positive diagonal (non-singular, positive definite), arbitrary otherwise
+        D = np.array([[u("Dnkj%d%d" % (a_, b_), (1.0, 2.0)) if a_ == b_ else 0.0 * T for b_ in range(ne)] for a_ in range(ne)])
+        dmu = np.array([[u("dMu%d%d" % (a_, b_), (0.5, 2.0)) for b_ in range(ne)] for a_ in range(ne)])
+        iM = np.array([[u("invM%d%d" % (a_, b_), (1.0, 2.0)) if a_ == b_ else 0.0 * T for b_ in range(ne)] for a_ in range(ne)])
+        for a_ in range(ne):
+            ctx.assume(D[a_, a_] > 0); ctx.assume(iM[a_, a_] > 0)
+        return D, dmu, iM
+
+    def tracer_diffusivity(cs, mobCallables, mobility_correction=None, parameters=None):
+        ph, xs, T = cs.key
+        d = np.array([ctx.uf("Dtr%d_%s" % (c, ph), *xs, T, rng=(0.5, 2.0)) for c in range(ne + 1)])
+        for c in range(ne + 1):
+            ctx.assume(d[c] > 0)
+        return d
+
+    def dMudX(mu, cs, refEl):
+        return 3.0 * np.eye(ne)
+    with patched(_MT, "inverseMobility", inverseMobility), patched(_MT, "tracer_diffusivity", tracer_diffusivity), patched(_MT, "dMudX", dMudX):
+        yield getCS
+
+
+def curvature_history(ctx, ne=2, first="two", rc1=False, second="matrix", rc2=True, entry="curvature", clear=False):
+    """curvatureFactor / getGrowthAndInterfacialComposition / impingementFactor (real code incl. _curvatureFactorFromEq,
+    _searchForTwoPhaseEq, _process_invalid_eq; pycalphad pieces stubbed): a query made after another query on the same
+    object -- cached equilibria kept or discarded -- answers like a fresh object asked only the second query, and a query
+    with removeCache=True leaves no composition sets behind"""
+    X = ctx.reals("x", (2, ne), (0.01, 0.2)); Tq = ctx.reals("T", 2, (700.0, 1200.0))
+    R = ctx.real("R", (0.5, 3.0)); ctx.assume(R > 0)
+    g = ctx.real("g", (0.0, 500.0)); dG = ctx.real("dG", (50.0, 900.0))
+
+    def ask(th, i, rc):
+        if entry == "curvature":
+            return th.curvatureFactor(X[i], Tq[i], precPhase="P1", removeCache=rc)
+        if entry == "growth":
+            return th.getGrowthAndInterfacialComposition(X[i], Tq[i], dG, R, g, precPhase="P1", removeCache=rc)
+        return th.impingementFactor(X[i], Tq[i], precPhase="P1", removeCache=rc)
+
+    def same(a, b):
+        if entry == "impingement":
+            return (a is None and b is None) if (a is None or b is None) else ctx.eq(a, b)
+        return _curv_same(ctx, a, b)
+    region = [first, second, second]
+    with _curv_backend(ctx, ne, region) as getCS:
+        warm = _mk_multi(ctx, ne); warm._queries = []; warm._getCompositionSetsEq = getCS(warm)
+        ask(warm, 0, rc1)
+        if clear:
+            warm.clearCache()
+        r_hist = ask(warm, 1, rc2)
+        stored = warm._compset_cache_curvature.get("P1")
+    with _curv_backend(ctx, ne, [second]) as getCS:
+        fresh = _mk_multi(ctx, ne); fresh._queries = []; fresh._getCompositionSetsEq = getCS(fresh)
+        r_fresh = ask(fresh, 1, rc2)
+    ctx.observe("hist_is_none", r_hist is None); ctx.observe("fresh_is_none", r_fresh is None)
+    ctx.prove("backend searched once per query with the queried point", len(warm._queries) == 2 and len(fresh._queries) == 1 and
+              ctx.all([ctx.eq(a, b) for a, b in zip(warm._queries[1][0] + [warm._queries[1][1]], list(X[1]) + [Tq[1]])]))
+    # documented fall-back with removeCache=False when no two-phase equilibrium is found: the result of the previous query is used
+    # (curvatureFactor needs the composition sets the previous query kept; impingementFactor only the previous beta)
+    documented_fallback = (not rc2) and second != "two" and first == "two" and not clear and (entry == "impingement" or not rc1)
+    if not documented_fallback:
+        ctx.prove("answer equals a fresh object's answer (independent of the earlier query and of keeping the cached equilibria)", same(r_hist, r_fresh))
+    else:
+        ctx.prove("documented fallback (removeCache=False, no two-phase equilibrium): the previous result is returned, not a mixture",
+                  r_hist is not None if entry != "impingement" else True)
+    if rc2:
+        ctx.prove("removeCache=True leaves no cached composition sets behind", stored is None)
+    elif second == "two":
+        ctx.prove("removeCache=False keeps the composition sets of this query", stored is not None and len(stored) == 2)
+
+
+def method_switch(ctx, first="tangent", second="approximate", keep=True):
+    """driving-force method changed on an object that keeps its cached composition sets: getDrivingForce [first method];
+    setDrivingForceMethod(second); the same query twice -- the repeated call gives the same answer, which is also a
+    fresh object's answer.  Real getDrivingForce, _getDrivingForceTangent/Approx/Curvature/Sampling,
+    _getCompositionSetsForDF, _getCompositionSetsEq, _resetDrivingForceCache, setDrivingForceMethod"""
+    _TH = sys.modules["kawin.thermo.Thermodynamics"]
+    x = ctx.real("x", (0.01, 0.2)); T = ctx.real("T", (700.0, 1200.0))
+    names = ["A", "B"]
+
+    def cs_of(phase, tag):
+        lo, hi = ((0.05, 0.2) if phase == "ALPHA" else (0.5, 0.8))
+        xb = ctx.uf("X_%s_%s" % (phase, tag), x, T, rng=(lo, hi))
+        ctx.assume(xb > 0); ctx.assume(xb < 1)
+        c = _CS(phase, [1 - xb, xb])
+        c.phase_record.nonvacant_elements = names
+        c.tag = tag
+        return c
+
+    def distinct(cm, cp):
+        ctx.assume(cp.X[1] > cm.X[1] + 0.1, "backend contract: precipitate composition differs from the matrix")
+
+    def local_equilibrium(dbf, comps, phases, conds, models, phase_records, composition_sets=None):
+        """in-place solve on the composition sets supplied (pycalphad does not add or remove composition sets); one per phase if none"""
+        tag = "+".join(phases) + ("|MU" if any(str(k).startswith("MU") for k in conds) else "|X")
+        if composition_sets is None:
+            composition_sets = [cs_of(ph, "loc:" + tag) for ph in phases]
+        res = type("Result", (), {})()
+        have = "+".join(c.phase_record.phase_name for c in composition_sets)
+        if tag == "ALPHA+P1|X" and have == "ALPHA+P1":
+            # a regular update of a complete matrix + precipitate pair converges to the global equilibrium (independence of the
+            # starting point is pycalphad's business and assumed)
+            for c in composition_sets:
+                c.X = cs_of(c.phase_record.phase_name, "global").X
+            res.chemical_potentials = np.array([ctx.uf("MUeq%d" % c, x, T, rng=(-3.0, -1.0)) for c in range(2)])
+            res.x = np.array([0.0 * x])
+            return res, composition_sets
+        res.chemical_potentials = np.array([ctx.uf("MU%d<%s;%s>" % (c, tag, have), x, T, rng=(-3.0, -1.0)) for c in range(2)])
+        res.x = np.array([ctx.uf("GE<%s;%s>" % (tag, have), x, T, rng=(-1.0, 3.0))])
+        return res, composition_sets
+
+    def mk(method):
+        th = object.__new__(GeneralThermodynamics)
+        th.phases = ["ALPHA", "P1"]; th.elements = names + ["VA"]; th.numElements = 2
+        th.db = None; th.models = {"ALPHA": "model-alpha", "P1": "model-p1"}; th.phase_records = _PR()
+        th.clearCache()
+        th.setDrivingForceMethod(method)
+
+        def getLocalEq(xx, TT, gExtra=0, precPhase=None, composition_sets=None):
+            res = type("Result", (), {})()
+            res.chemical_potentials = np.array([ctx.uf("MUloc%d" % c, x, T, rng=(-3.0, -1.0)) for c in range(2)])
+            return res, [cs_of("ALPHA", "local")]
+
+        def sampling(xx, TT, mu, precPhase, lpsc=None):
+            return ctx.uf("dg_sampling", x, T, rng=(-1.0, 3.0)), cs_of("P1", "sampled")
+
+        def getEq(xx, TT, gExtra=0, precPhase=None):
+            w = type("Wks", (), {})()
+            w.eq = type("EQ", (), {})()
+            w.eq.MU = np.array([[ctx.uf("MUeq%d" % c, x, T, rng=(-3.0, -1.0)) for c in range(2)]])
+            cm, cp = cs_of("ALPHA", "global"), cs_of("P1", "global")
+            distinct(cm, cp)
+            w.get_composition_sets = lambda: [cm, cp]
+            return w
+        th.getLocalEq = getLocalEq; th._getPrecCompositionSetSamplingDF = sampling; th.getEq = getEq
+        distinct(cs_of("ALPHA", "local"), cs_of("P1", "sampled"))
+        return th
+    with patched(_TH, "local_equilibrium", local_equilibrium), patched(_TH, "dMudX", lambda mu, cs, ref: np.array([[ctx.uf("d2G", x, T, rng=(1.0, 5.0))]])):
+        th = mk(first)
+        th.getDrivingForce(x, T, precPhase="P1", removeCache=not keep)
+        th.setDrivingForceMethod(second)
+        r1 = th.getDrivingForce(x, T, precPhase="P1", removeCache=not keep)
+        r2 = th.getDrivingForce(x, T, precPhase="P1", removeCache=not keep)
+        rf = mk(second).getDrivingForce(x, T, precPhase="P1", removeCache=not keep)
+    ctx.observe("r1", r1[0] * 1.0); ctx.observe("r2", r2[0] * 1.0); ctx.observe("rf", rf[0] * 1.0)
+    ctx.prove("after a method switch: repeating the call gives the same answer", ctx.all([ctx.eq(r1[0] * 1.0, r2[0] * 1.0), ctx.eq(r1[1] * 1.0, r2[1] * 1.0)]))
+    ctx.prove("after a method switch: answer equals a fresh object's answer for the new method", ctx.all([ctx.eq(r1[0] * 1.0, rf[0] * 1.0), ctx.eq(r1[1] * 1.0, rf[1] * 1.0)]))
 
 
 def reset(ctx, multi=False):
@@ -883,7 +1088,7 @@ def reset(ctx, multi=False):
 
 _F_HT = [HashTable.enableCaching, HashTable.clearCache, HashTable.setHashSensitivity, HashTable._hashingFunction,
          HashTable.retrieveFromHashTable, HashTable.addToHashTable]
-_A_HT = ["0 <= x_i <= 1, 200 <= T <= 3000 (range of the shipped databases); precision s decimal places, s in 0..9",
+_A_HT = ["0 <= x_i <= 1, 200 <= T <= 3000 (range of the shipped databases); precision s decimal places, s in 0..15 (from s = 16 on T*10^s leaves the int64 range for T >= 922.34 K: see PENDING)",
          "agreement to precision: |v1 - v2| < 10^-s in every component (indifferent to truncation vs. rounding of the key)",
          "real arithmetic for x*10^s; the integer cast is exact (truncation, out-of-range -> INT_MIN)"]
 _S_HT = ["hash(tuple of integers): injective (64-bit hash collisions are outside the claim)"]
@@ -892,8 +1097,8 @@ HARNESSES = [
     Harness("C09.cache_off", cache_off, functions=_F_HT, assumptions=_A_HT, stubs=_S_HT, bounds={"solutes": "ne", "precision": "s"},
             params={"quick": [{"s": 4, "ne": 1}, {"s": 9, "ne": 2}, {"s": 0, "ne": 2}], "thorough": [{"s": s, "ne": ne} for s in (0, 3, 6, 9) for ne in (1, 2, 3)]}),
     Harness("C09.cache_key", cache_key, functions=_F_HT, assumptions=_A_HT, stubs=_S_HT, bounds={"solutes": "ne", "precision": "s", "stored points": "stores"},
-            params={"quick": [{"s": s, "ne": 1 + (s % 2), "stores": 1} for s in range(10)] + [{"s": 4, "ne": 2, "stores": 2}, {"s": 8, "ne": 1, "stores": 2}],
-                    "thorough": [{"s": s, "ne": ne, "stores": st} for s in range(10) for ne in (1, 2, 3) for st in (1, 2)]}),
+            params={"quick": [{"s": s, "ne": 1 + (s % 2), "stores": 1} for s in range(16)] + [{"s": 4, "ne": 2, "stores": 2}, {"s": 8, "ne": 1, "stores": 2}, {"s": 15, "ne": 2, "stores": 2}],
+                    "thorough": [{"s": s, "ne": ne, "stores": st} for s in range(16) for ne in (1, 2, 3) for st in (1, 2)]}),
     Harness("C09.cache_fluxes", cache_fluxes, functions=_F_HT + [SinglePhaseModel._getFluxes, DiffusionModel.useCache, DiffusionModel.setHashSensitivity],
             assumptions=_A_HT, stubs=_S_HT + ["therm.getInterdiffusivity: uninterpreted function of (x, T)"], bounds={"nodes": "N", "solutes": "ne", "precision": "s"},
             params={"quick": [{"N": 2, "ne": 1, "s": 4, "cache": True}, {"N": 3, "ne": 1, "s": 2, "cache": True}, {"N": 2, "ne": 2, "s": 8, "cache": True},
@@ -973,9 +1178,58 @@ HARNESSES = [
             bounds={"sample points": "npts", "queries": 2},
             params={"quick": [{"npts": 2, "keep": True}, {"npts": 2, "keep": False}, {"npts": 2, "keep": True, "same": True}, {"npts": 2, "keep": True, "ordered": True}],
                     "thorough": [{"npts": n, "keep": k, "same": sm, "ordered": o} for n in (2, 3) for k in (True, False) for sm in (False, True) for o in (False, True)]}),
+    Harness("C09.curvature_history", curvature_history,
+            functions=[MulticomponentThermodynamics.curvatureFactor, MulticomponentThermodynamics._curvatureFactorFromEq, MulticomponentThermodynamics._searchForTwoPhaseEq,
+                       MulticomponentThermodynamics.getGrowthAndInterfacialComposition, MulticomponentThermodynamics.clearCache, _growthRateOutputFromCurvature],
+            assumptions=["whether a query finds matrix + precipitate, only the matrix, or no converged equilibrium is a harness parameter per query; no search direction is given",
+                         "with removeCache=False and no two-phase equilibrium the documented fallback (previous result) applies and is not compared with a fresh object"],
+            stubs=["_getCompositionSetsEq (pycalphad equilibrium): composition sets / chemical potentials are uninterpreted functions of the queried (x, T)",
+                   "inverseMobility, tracer_diffusivity: uninterpreted functions of the composition set handed in (diagonal positive diffusivity / inverse-mobility matrices, positive tracer diffusivities); dMudX of the precipitate: 3*I",
+                   "composition sets: positive mole fractions, precipitate richer in the first solute than the matrix"],
+            bounds={"queries": 2, "solutes": "ne"},
+            params={"quick": [{"first": "two", "rc1": False, "second": "matrix", "rc2": True}, {"first": "two", "rc1": False, "second": "invalid", "rc2": True},
+                              {"first": "two", "rc1": False, "second": "two", "rc2": True}, {"first": "two", "rc1": True, "second": "matrix", "rc2": False},
+                              {"first": "two", "rc1": False, "second": "two", "rc2": False}, {"first": "two", "rc1": False, "second": "matrix", "rc2": False},
+                              {"first": "two", "rc1": False, "second": "matrix", "rc2": False, "clear": True},
+                              {"first": "two", "rc1": False, "second": "matrix", "rc2": True, "entry": "growth"}, {"first": "matrix", "rc1": False, "second": "two", "rc2": False, "entry": "growth"}],
+                    "thorough": [{"first": f, "rc1": r1, "second": sc, "rc2": r2, "entry": e, "clear": c, "ne": ne} for f in ("two", "matrix") for r1 in (False, True)
+                                 for sc in ("two", "matrix", "invalid") for r2 in (False, True) for e in ("curvature", "growth") for c in (False, True) for ne in (2,)]}),
+    Harness("C09.method_switch", method_switch,
+            functions=[GeneralThermodynamics.getDrivingForce, GeneralThermodynamics.setDrivingForceMethod, GeneralThermodynamics._getDrivingForceTangent,
+                       GeneralThermodynamics._getDrivingForceApprox, GeneralThermodynamics._getDrivingForceCurvature, GeneralThermodynamics._getDrivingForceSampling,
+                       GeneralThermodynamics._getCompositionSetsForDF, GeneralThermodynamics._getCompositionSetsEq, GeneralThermodynamics._resetDrivingForceCache],
+            assumptions=["same (x, T) for all queries; precipitate composition differs from the matrix composition"],
+            stubs=["getLocalEq / getEq / _getPrecCompositionSetSamplingDF / local_equilibrium: uninterpreted functions of (x, T), of the phases asked for and of the phases of the "
+                   "composition sets handed in; local_equilibrium solves in place on the composition sets supplied (adds none), as pycalphad does"],
+            bounds={"methods": "first -> second", "queries": "1 + 2"},
+            params={"quick": [{"first": "tangent", "second": "approximate"}, {"first": "tangent", "second": "curvature"}, {"first": "approximate", "second": "tangent"},
+                              {"first": "curvature", "second": "tangent", "keep": False}],
+                    "thorough": [{"first": f, "second": g_, "keep": k} for f in ("tangent", "approximate", "curvature", "sampling") for g_ in ("tangent", "approximate", "curvature", "sampling") if f != g_ for k in (True, False)]}),
+    Harness("C09.impingement_history", curvature_history, functions=[MulticomponentThermodynamics.impingementFactor, MulticomponentThermodynamics.curvatureFactor,
+                                                                     MulticomponentThermodynamics._curvatureFactorFromEq, MulticomponentThermodynamics.clearCache],
+            assumptions=["as C09.curvature_history; the documented fall-back (removeCache=False, no clearCache in between, no two-phase equilibrium: previous beta) is not compared with a fresh object"], stubs=["as C09.curvature_history"], bounds={"queries": 2},
+            params={"quick": [{"first": "two", "rc1": False, "second": "matrix", "rc2": True, "entry": "impingement"},
+                              {"first": "two", "rc1": True, "second": "invalid", "rc2": True, "entry": "impingement"},
+                              {"first": "two", "rc1": False, "second": "matrix", "rc2": False, "entry": "impingement", "clear": True},
+                              {"first": "two", "rc1": True, "second": "matrix", "rc2": False, "entry": "impingement"},
+                              {"first": "two", "rc1": False, "second": "two", "rc2": True, "entry": "impingement"}],
+                    "thorough": [{"first": f, "rc1": r1, "second": sc, "rc2": r2, "entry": "impingement", "clear": c} for f in ("two", "matrix") for r1 in (False, True)
+                                 for sc in ("matrix", "invalid", "two") for r2 in (False, True) for c in (False, True)]}),
+    Harness("C09.sampling_conditions", sampling_history, functions=[GeneralThermodynamics.getDrivingForce, GeneralThermodynamics._getDrivingForceSampling, GeneralThermodynamics._getPrecCompositionSetSamplingDF],
+            assumptions=["two queries with different local_phase_sampling_conditions; the samples the backend returns depend on them"],
+            stubs=["as C09.sampling_history; calculate: GM_j = uninterpreted function of (T, sampling restriction)"], bounds={"sample points": "npts", "queries": 2},
+            params={"quick": [{"npts": 2, "keep": True, "same": True, "conds": True}, {"npts": 2, "keep": True, "conds": True}],
+                    "thorough": [{"npts": 3, "keep": k, "same": sm, "conds": True} for k in (True, False) for sm in (True, False)]}),
+    Harness("C09.cache_key_wide", cache_key, functions=_F_HT, assumptions=_A_HT, stubs=_S_HT, bounds={"solutes": "ne", "precision": "s = 17, 18 (T*10^s leaves the int64 range for every T >= 92.3 K: all temperatures share one key; s = 16: for T >= 922.34 K)"},
+            params={"quick": [{"s": 17, "ne": 1, "stores": 1}, {"s": 18, "ne": 1, "stores": 1}], "thorough": [{"s": s_, "ne": 2, "stores": 2} for s_ in (17, 18)]}),
 ]
-
-
 
 from harness.c09_extra import EXTRA as _EXTRA
 HARNESSES = HARNESSES + _EXTRA
+
+# harnesses that are violated on the unchanged tree wait here (not part of ./vcheck) until the code is repaired or the finding is listed;
+# run them with  VK_PENDING=1 ./vcheck C09 --only <id>
+PENDING = []
+import os as _os
+if _os.environ.get("VK_PENDING"):
+    HARNESSES = HARNESSES + PENDING
